@@ -418,6 +418,14 @@ func scriptFlowSnapshotLeader() []Event {
 	return seq(camp(1), prop(1), isolate(3), prop(1), compact(1, 0), heal(), tick(1), prop(1), camp(3), prop(3), isolate(2), prop(3), prop(3), prop(3), prop(3), prop(3), heal(), tick(3), prop(3))
 }
 
+// scriptQuotaOverCredit: acknowledgements are held back while the leader accepts
+// proposals, then the leader is cut off; the held acknowledgements arrive (a prefix
+// commits and is applied while a tail stays uncommitted) and the clients keep proposing.
+func scriptQuotaOverCredit() []Event {
+	return seq(camp(1), holdFrom(2), holdFrom(3), prop(1), prop(1), prop(1), isolate(1), prop(1), prop(1), flush(),
+		prop(1), prop(1), prop(1), prop(1), prop(1), prop(1), prop(1), prop(1))
+}
+
 // scriptSliceGap: the leader's append thread is held back, so a fresh proposal
 // stays unstable while a lagging follower is probed across stable entries of
 // uneven size (a small one that fits the message limit, a large one that does not).
@@ -434,6 +442,19 @@ func scriptMixedBatch() []Event {
 // entries, applied one entry per Ready, followed by another change.
 func scriptBatchThenConf() []Event {
 	return seq(camp(1), prop(1), confMixedLast(1, mAddLearner4, 2), conf(1, mAddVoter4), prop(1), confMixedLast(2, mRemove3, 1), conf(1, mJointExpl), prop(1))
+}
+
+// scriptSnapLease: a CheckQuorum follower hears nothing for more than an election
+// timeout (its own randomized timeout is longer), then a slow snapshot from its
+// leader arrives, and right after it a vote request from another node.
+func scriptSnapLease() []Event {
+	return seq(ticks(1, 3), prop(1), isolate(3), prop(1), prop(1), compact(1, 0), heal(), tick(1), ticks(3, 4), flush(), camp(2), prop(2), roundTicks(3, 1))
+}
+
+// scriptCandidateSnapshot: a node becomes (pre-)candidate while a snapshot from the
+// leader of its current term is still on its way (the leader's id differs from the term).
+func scriptCandidateSnapshot() []Event {
+	return seq(camp(2), prop(2), camp(1), prop(1), isolate(3), prop(1), prop(1), compact(1, 0), heal(), tick(1), holdFrom(3), camp(3), flush(), prop(1), tick(1))
 }
 
 // scriptJointCheckQuorum: the leader is in a joint configuration and loses contact
@@ -617,6 +638,11 @@ func poolSnapshot(tier string) (p pool) {
 			}(),
 		)
 		p.bfs = append(p.bfs, bfsSnapshot(f, int(BTick), 1), bfsPagination(f, 60))
+		for _, ff := range []feat{{async: f.async, prevote: true}, f} {
+			cs := tickSnap(ddScn("candidate-snapshot", 3, ids(3), ff, scriptCandidateSnapshot(), k, int(BDrop), 1, int(BDup), 1, int(BCampaign), 1))
+			cs.SlowSnap = true
+			p.dd = append(p.dd, cs)
+		}
 		if f.async {
 			p.dd = append(p.dd, tickSnap(ddScn("snapshot-term-change", 3, ids(3), f, scriptSnapshotTermChange(), k, fl...)))
 		}
@@ -700,6 +726,14 @@ func poolFlow(tier string) (p pool) {
 			s.Budget[BUnreach] = 1
 			p.dd = append(p.dd, s)
 		}
+		// uncommitted-size quota with a partially committed tail
+		{
+			c := flowCfg(f, 8, 1<<20, 0, 40)
+			s := ddScn("quota-over-credit", 3, ids(3), f, scriptQuotaOverCredit(), k, int(BDrop), 1, int(BDup), 1, int(BPropose), 1)
+			s.Cfg = []NodeCfg{c}
+			s.PropSizes = []int{8, 8, 8, 8, 8, 8, 8, 8, 8, 8, 8, 8, 8, 8, 8, 8}
+			p.dd = append(p.dd, s)
+		}
 		// byte window after joining by snapshot
 		{
 			c := flowCfg(f, 8, 40, 40, 0)
@@ -729,6 +763,11 @@ func poolTick(tier string) (p pool) {
 			tickSc("prevote-rejoin", 3, f, scriptPrevoteRejoin(), k, tb...),
 			tickSc("checkquorum-lease", 3, f, scriptCheckQuorumLease(), k, tb...),
 		)
+	}
+	for _, f := range []feat{cqF, pvcqF} {
+		sl := tickSc("snap-lease", 3, f, scriptSnapLease(), k, tb...)
+		sl.SlowSnap = true
+		p.dd = append(p.dd, sl)
 	}
 	for _, f := range []feat{cqF, pvcqF} {
 		s := ddScn("joint-checkquorum", 5, ids(3), f, scriptJointCheckQuorum(), k, int(BTick), 2, int(BDrop), 1)
